@@ -65,6 +65,25 @@ type RecBackend struct {
 	// AckOnlyClient, when set, restricts AckMode to publishes of that client id.
 	AckOnlyClient string
 	held          []broker.Ack
+
+	// ack gate (HoldAck): the acknowledgement of the publish with this tag waits
+	// inside the backend - the memory backend acknowledges while it holds its
+	// global mutex, so every other backend call queues up behind it
+	gateTag     string
+	gateEntered chan struct{}
+	gate        chan struct{}
+}
+
+// HoldAck arms the ack gate for the publish whose payload tag is tag. entered
+// is closed once that publish is being acknowledged (the backend is busy from
+// then on); release lets it go on. The gate opens by itself after 3 ceilings.
+func (r *RecBackend) HoldAck(tag string) (entered <-chan struct{}, release func()) {
+	r.mu.Lock()
+	defer r.mu.Unlock()
+	r.gateTag, r.gateEntered, r.gate = tag, make(chan struct{}), make(chan struct{})
+	g := r.gate
+	var once sync.Once
+	return r.gateEntered, func() { once.Do(func() { close(g) }) }
 }
 
 func (r *RecBackend) rec(c Call) {
@@ -242,6 +261,22 @@ func (r *RecBackend) Publish(c *broker.Client, msg *packet.Message, ack broker.A
 			// acknowledgement packet can only follow it), "ack-done" the moment the
 			// broker's acknowledgement callback has returned (the broker knows)
 			r.EL.Add(memconn.Event{Actor: "backend", Op: "ack", Topic: msg.Topic, Tag: tag(msg), Note: c.ID()})
+			r.mu.Lock()
+			gated := r.gateTag != "" && r.gateTag == tag(msg)
+			entered, gate := r.gateEntered, r.gate
+			if gated {
+				r.gateTag = ""
+			}
+			r.mu.Unlock()
+			if gated {
+				r.EL.Add(memconn.Event{Actor: "backend", Op: "busy", Tag: tag(msg), Note: "the backend is held inside this acknowledgement"})
+				close(entered)
+				select {
+				case <-gate:
+				case <-time.After(3 * ev.Ceiling()):
+				}
+				r.EL.Add(memconn.Event{Actor: "backend", Op: "busy-end", Tag: tag(msg)})
+			}
 			ack()
 			r.EL.Add(memconn.Event{Actor: "backend", Op: "ack-done", Topic: msg.Topic, Tag: tag(msg), Note: c.ID()})
 		}
